@@ -68,7 +68,7 @@ def make_backend(cfg: dict):
         convert_or_as_in=cfg.get("orAsIn", False), convert_and_as_in=cfg.get("andAsIn", False),
         in_expressions_allow_wildcards=cfg.get("inAllowWild", False),
         field_in_list_expression="[in {field} {op} <{list}>]", or_in_operator="any", and_in_operator="all", list_separator=";",
-        unbound_value_str_expression="[kw {value}]", unbound_value_num_expression="[kwn {value}]", unbound_value_re_expression="[kwre /{value}/]",
+        unbound_value_str_expression="[kw {value}]", unbound_value_num_expression="[kwn {value}]", unbound_value_re_expression="[kwre /{value}/{flag_i}{flag_m}{flag_s}]",
         convert_not_as_not_eq=cfg.get("notAsNotEq", False),
         deferred_start=" | ", deferred_separator=" | ", deferred_only_query="*",
         backend_processing_pipeline=ProcessingPipeline(),
@@ -153,7 +153,7 @@ def parse_atom(body: str):
         if base == "kwn":
             return [wrap({"k": "num", "f": None, "n": cps(body[i:].strip())})]
         src, flags = _regex_at(body, i)
-        return [wrap({"k": "re", "f": None, "src": cps(src), "i": False, "m": False, "s": False})]
+        return [wrap({"k": "re", "f": None, "src": cps(src), "i": "i" in flags, "m": "m" in flags, "s": "s" in flags})]
     f, i = field_at(i)
     if body[i:i + 1] == " ":
         i += 1
